@@ -83,7 +83,7 @@ def exec_reg(case):
     c = case["cfg"]
     X, y, Xnew, rs = draw_reg(c, case["seed"])
     ev = {"id": case["id"], "kind": "reg", "cfg": c, "xnew": it(Xnew)}
-    blank = {"weight": EMPTY, "pred": EMPTY, "vec": EMPTY, "dense": EMPTY, "factors": {"fs": [], "w": []}, "forms": []}
+    blank = {"weight": EMPTY, "pred": EMPTY, "vec": EMPTY, "dense": EMPTY, "factors": {"fs": [], "w": []}, "forms": [], "refit": {"raised": True}}
     tol, nmax, _ = REGOPT[c["opt"]]
     try:
         if c["model"] == "cp":
@@ -120,6 +120,19 @@ def exec_reg(case):
                 run.update(raised=True, exc=type(ex).__name__)
             forms.append(run)
         ev["forms"] = forms
+        # the same object, other parameters, other data of the same shapes: fit again, look again
+        X2, y2, _, _ = draw_reg(dict(c, k=c["k"] + 1000), case["seed"])
+        rf = {"raised": False, "x": it(sub), "weight": EMPTY, "vec": EMPTY, "dense": EMPTY, "pred": EMPTY}
+        try:
+            est.set_params(reg_W=2.0 * c["reg"] / 10.0)
+            est.fit(tl.tensor(X2), tl.tensor(y2))
+            rf["weight"] = qt(est.weight_tensor_)
+            rf["vec"] = qt(est.vec_W_)
+            rf["dense"] = qt(cp_to_tensor(est.cp_weight_) if c["model"] == "cp" else tucker_to_tensor(est.tucker_weight_))
+            rf["pred"] = qt(est.predict(tl.tensor(sub)))
+        except Exception as ex:
+            rf.update(raised=True, exc=type(ex).__name__)
+        ev["refit"] = rf
     except Exception as ex:
         for k, v in blank.items():
             ev.setdefault(k, v)
@@ -163,7 +176,17 @@ def _new_pls(c):
     return CP_PLSR(c["nc"], tol=tol, n_iter_max=nmax)
 
 
-def _fit_pls(c, X, Y, Xtrain_for_transform, Xt, extra=False):
+def _pls_record(est, Xtrain, Xt):
+    import tensorly as tl
+    return {"raised": False,
+            "scores": qt(est.X_factors[0]),
+            "loads": [qt(f) for f in est.X_factors[1:]],
+            "yload": qt(est.Y_factors[1]),
+            "transform": qt(est.transform(tl.tensor(Xtrain.copy()))),
+            "pred": qt(est.predict(tl.tensor(Xt.copy())))}
+
+
+def _fit_pls(c, X, Y, Xtrain_for_transform, Xt, extra=False, perm=None, kbad=0):
     import tensorly as tl
     blank = {"scores": EMPTY, "transform": EMPTY, "loads": [], "yload": EMPTY, "pred": EMPTY}
     try:
@@ -196,6 +219,25 @@ def _fit_pls(c, X, Y, Xtrain_for_transform, Xt, extra=False):
             except Exception as ex:
                 run.update(raised=True, exc=type(ex).__name__)
             x["forms"].append(run)
+        # a fit that must be rejected, on the same object: other X values, and (a) one sample too many / (b) a 3-mode Y
+        rj = {"raised": False, "exc": "", "transform": EMPTY, "pred": EMPTY}
+        Xbad = X + 5.0
+        try:
+            if kbad % 2 == 0:
+                est.fit(tl.tensor(np.concatenate([Xbad, Xbad[:1]], axis=0)), tl.tensor(Y.copy()))
+            else:
+                est.fit(tl.tensor(Xbad), tl.tensor(np.reshape(np.stack([Y.reshape(len(Y), -1)] * 2, axis=-1), (len(Y), -1, 2))))
+        except Exception as ex:
+            rj.update(raised=True, exc=type(ex).__name__)
+        rj["transform"] = qt(est.transform(tl.tensor(X.copy())))
+        rj["pred"] = qt(est.predict(tl.tensor(Xt.copy())))
+        x["reject"] = rj
+        # ... and fitted again on the permuted samples
+        try:
+            est.fit(tl.tensor(X[perm].copy()), tl.tensor(Y[perm].copy()))
+            x["refit"] = _pls_record(est, X[perm], Xt)
+        except Exception as ex:
+            x["refit"] = {"raised": True, "exc": type(ex).__name__}
     except Exception as ex:
         x = {"raised": True, "exc": type(ex).__name__, "msg": str(ex)[:120]}
     return out, x
@@ -205,7 +247,7 @@ def exec_pls(case):
     c = case["cfg"]
     X, Y, Xt, C, yoff, perm = draw_pls(c, case["seed"])
     ev = {"id": case["id"], "kind": "pls", "cfg": c, "perm": [int(p) for p in perm], "yoff": yoff, "mtest": int(Xt.shape[0])}
-    ev["base"], ev["extra"] = _fit_pls(c, X, Y, X, Xt, extra=True)
+    ev["base"], ev["extra"] = _fit_pls(c, X, Y, X, Xt, extra=True, perm=perm, kbad=c["nc"] + c["ny"])
     ev["shiftx"] = _fit_pls(c, X + C, Y, X + C, Xt + C)          # constant tensor added to every sample (train and new)
     ev["shifty"] = _fit_pls(c, X, Y + float(yoff), X, Xt)        # constant added to Y: predictions move by the same offset
     ev["permfit"] = _fit_pls(c, X[perm], Y[perm], X[perm], Xt)   # samples permuted
